@@ -88,6 +88,9 @@ func checkC17(P *Prog, r *Result) {
 	// a schema derived with Pick/Omit/Extend/Merge owns its test and transform slices: a builder call on one
 	// schema cannot overwrite an entry of the other (C16's rule)
 	shareRule(P, r, checkC16, "C16/no-shared-backing", nil, "C17/derived-own-slices", 4)
+	// a builder that derives a schema acts on the schema it returns, never on its receiver: the field map it writes
+	// is one made in that call (C16's rule)
+	shareRule(P, r, checkC16, "C16/operands-read-only", nil, "C17/derivation-leaves-receiver", 2)
 	// ---- field-effects ----
 	for _, k := range R.Kinds {
 		kn := k.Obj().Name()
